@@ -37,7 +37,81 @@ def body_paths(stmts, args, name="handler"):
     return Enumerator(loop_counts=(0, 1, 2)).function_paths(fake)
 
 
+def r5_callers(ctx, repo):
+    """every function of the package that calls <job>.evaluate(X)"""
+    n_sites = 0
+    for mod in repo.modules.values():
+        if mod.name.startswith("test") or "tests" in mod.path.split("/"):
+            continue
+        fns = [(None, f) for f in mod.functions.values()] + [(c, f) for c in mod.classes.values() for f in c.methods.values()]
+        for cls, fn in fns:
+            sites = [c for c in ast.walk(fn) if isinstance(c, ast.Call) and isinstance(c.func, ast.Attribute) and c.func.attr == "evaluate"
+                     and "job" in (access_path(c.func.value) or "").lower() and len(c.args) == 1 and access_path(c.args[0])]
+            if not sites:
+                continue
+            C = "%s%s" % (cls.name + "." if cls else mod.name + ".", fn.name)
+            n_sites += len(sites)
+            bad = None
+            npaths = 0
+            try:
+                paths = Enumerator(loop_counts=(0, 1), max_paths=4000).function_paths(fn)
+            except Exception as e:      # too many paths: no verdict for this caller
+                ctx.inconclusive("R5", C, where(mod, fn), "paths of the caller not enumerable: %s" % e)
+                continue
+            for p in paths:
+                npaths += 1
+                derived = {}       # local -> design it was derived from (through .vector)
+                stale = {}         # local -> (design, call)
+                for e in p.events:
+                    if e.kind not in ("stmt", "guard"):
+                        continue
+                    s_ = e.node
+                    # uses of stale values that identify the design
+                    if stale:
+                        uses = []
+                        for n_ in ast.walk(s_):
+                            if isinstance(n_, ast.Subscript) and not isinstance(n_.slice, ast.Slice):
+                                uses += [(x.id, "as a key/index in %s" % text(n_)[:80]) for x in ast.walk(n_.slice) if isinstance(x, ast.Name) and x.id in stale]
+                            elif isinstance(n_, ast.Call) and isinstance(n_.func, ast.Attribute) and n_.func.attr in ("get", "setdefault", "pop", "index", "__contains__", "add", "discard") and n_.args:
+                                uses += [(x.id, "as a key in %s" % text(n_)[:80]) for x in ast.walk(n_.args[0]) if isinstance(x, ast.Name) and x.id in stale]
+                            elif isinstance(n_, ast.Call) and (access_path(n_.func) or "").split(".")[-1].startswith("Individual") and n_.args:
+                                uses += [(x.id, "as the vector of a new design %s" % text(n_)[:80]) for x in ast.walk(n_.args[0]) if isinstance(x, ast.Name) and x.id in stale]
+                            elif isinstance(n_, ast.Compare) and any(isinstance(o, (ast.In, ast.NotIn)) for o in n_.ops):
+                                uses += [(x.id, "in the membership test %s" % text(n_)[:80]) for x in ast.walk(n_.left) if isinstance(x, ast.Name) and x.id in stale]
+                        if isinstance(s_, ast.Assign) and any((access_path(t) or "").endswith(".vector") for t in s_.targets):
+                            uses += [(x.id, "written back into %s" % text(s_.targets[0])) for x in ast.walk(s_.value) if isinstance(x, ast.Name) and x.id in stale]
+                        if uses and bad is None:
+                            k_, how = uses[0]
+                            d_, call_ = stale[k_]
+                            bad = (s_, "`%s` is derived from %s.vector before %s and used afterwards %s: a transient failure inside that call re-samples the vector, so what is filed "
+                                   "under this value (the design, its costs) no longer belongs to it (path [%s])" % (k_, d_, text(call_), how, p.describe(5)))
+                    if e.kind != "stmt":
+                        continue
+                    if isinstance(s_, ast.Assign) and len(s_.targets) == 1 and isinstance(s_.targets[0], ast.Name):
+                        t_ = s_.targets[0].id
+                        stale.pop(t_, None)
+                        derived.pop(t_, None)
+                        src = [access_path(n_.value) for n_ in ast.walk(s_.value) if isinstance(n_, ast.Attribute) and n_.attr == "vector" and access_path(n_.value)]
+                        src += [derived[x.id] for x in ast.walk(s_.value) if isinstance(x, ast.Name) and x.id in derived]
+                        if src:
+                            derived[t_] = src[0]
+                    for c in [c for c in ast.walk(s_) if isinstance(c, ast.Call)]:
+                        if c in sites:
+                            d_ = access_path(c.args[0])
+                            for k_, v_ in list(derived.items()):
+                                if v_ == d_:
+                                    stale[k_] = (d_, c)
+            if bad:
+                ctx.violated("R5", C, where(mod, bad[0]), bad[1])
+            else:
+                ctx.holds("R5", C, where(mod, fn), "nothing derived from a design's vector before Job.evaluate identifies it afterwards (%d call site(s), %d paths)" % (len(sites), npaths))
+    if n_sites == 0:
+        ctx.inconclusive("R5", "callers of Job.evaluate", "", "no call <job>.evaluate(design) found in the package")
+
+
 def run(ctx):
+    ctx.rule("R5", "callers of Job.evaluate: a value derived from the vector before the call is not used as the design's identity after it")
+    r5_callers(ctx, ctx.repo)
     for rid, doc in (("R1", "attempt loop bound folds to 5; exhaustion raises RuntimeError; nothing falls off the end"),
                      ("R2", "retry handlers catch exactly {TimeoutError, RuntimeError}; failed copy before re-sample; re-sample from gen_vector(parameters); state non-EVALUATED; continue"),
                      ("R3", "all other handlers re-raise on every path"),
